@@ -84,7 +84,31 @@ def prepare_unit(u, bdir):
             e['src_path'] = os.path.join(REPO, ent['file'])
             ex[e['id']] = e
         fired = X.apply_rewrites(ex, u.get('rewrites', []))
+        for e in ex.values():
+            for r in e.get('pre_rewrites') or []:
+                fired.append(dict(r, scope=e['id']))
+            if e.get('wrapped_region_header'):
+                fired.append({'id': 'wrap-region', 'scope': e['id'], 'count': 1, 'why': 'statement region wrapped into a function with the unit-supplied header', 'pattern': '', 'repl': e['wrapped_region_header']})
+            if e.get('unroll'):
+                fired.append({'id': 'unroll-loop', 'scope': e['id'], 'count': 1, 'why': 'loop replaced by %s verbatim copies of its body + unwinding assertion (bounded)' % e['unroll'], 'pattern': '', 'repl': ''})
         gens = u.get('templates', ['gen.cpp.in'])
+        # loop-rule soundness guard: every local the loop assigns must be named in the HAVOC macro
+        ttext = open(os.path.join(u['dir'], gens[0])).read()
+        for e in ex.values():
+            if e.get('kind') != 'loopfn' or e.get('unroll'):
+                continue
+            m = re.search(r'#define\s+%s_HAVOC\b((?:.*\\\n)*.*)' % re.escape(e['macro_prefix']), ttext)
+            hav = m.group(1) if m else ''
+            # follow one level of macro indirection (e.g. #define LCC_HAVOC HAVOC_COMMON)
+            for mm in re.findall(r'\b([A-Z][A-Z0-9_]{3,})\b', hav):
+                m2 = re.search(r'#define\s+%s\b((?:.*\\\n)*.*)' % re.escape(mm), ttext)
+                if m2 and mm != e['macro_prefix'] + '_HAVOC':
+                    hav += ' ' + m2.group(1)
+            missing = [nm for nm in e.get('loop_assigned_locals', []) if not re.search(r'\b%s\b' % re.escape(nm), hav)]
+            missing = [nm for nm in missing if nm not in u.get('loop_assigned_ok', [])]
+            if missing:
+                raise X.ExtractError('loop contract of %s no longer applies: the loop assigns %s which the HAVOC macro '
+                                     'does not havoc (loop-carried state outside the contract)' % (e['id'], ', '.join(missing)))
         # first template receives the entities; extra templates (e.g. second C++ TU) too
         X.render(os.path.join(u['dir'], gens[0]), ex, os.path.join(bdir, 'gen.cpp'))
     except X.ExtractError as e:
